@@ -170,3 +170,27 @@ H("C13", "normalized_string", "c13_relations", timeout=1500,
 H("C13", "normalized_string", "c13_display", timeout=1500,
   encodes=["Display for NormalizedString"], inputs="arbitrary valid value",
   asserts="Display writes exactly the normalised text", bounds="full; unwind 18", assumes=["from_utf8 stub"])
+
+# ------------------------------------------------------------------------------------------------
+# C11 / C12 (vanilla part)
+# ------------------------------------------------------------------------------------------------
+IO_ASSUME = "Read/Write are nondeterministic stubs: arbitrary fragmentation, Interrupted, 8 error kinds, Ok(0), at most 8 calls per operation; std's read_exact/write_all are executed, not modelled"
+P("C11",
+  outside=["more than 8 read/write calls per header operation", "Wrath keystream abstracted as a symbolic one-time pad (licensed by C09)"],
+  assumptions=[IO_ASSUME])
+P("C12",
+  outside=["thread schedules are not executed (Kani has no concurrency): covered by the ownership argument plus the syntactic no-shared-state guard"],
+  assumptions=["halves are distinct owned values; the crate contains no unsafe, static mut, Cell/RefCell, atomics, locks or thread_local (checked syntactically on every run)"])
+for _h, _t in [("c11_typed_helpers", 900), ("c11_read_client", 1800), ("c11_read_server", 1800), ("c11_write_client", 1800), ("c11_write_server", 1800),
+               ("c11_read_client_facade", 1800), ("c11_read_server_facade", 1800), ("c11_write_client_facade", 1800), ("c11_write_server_facade", 1800)]:
+    H("C11", "vanilla_header", _h, timeout=_t,
+      encodes=["vanilla_header::{EncrypterHalf,DecrypterHalf,HeaderCrypto}::* header entry points", "ServerHeader::from_array", "ClientHeader::from_array"],
+      inputs="arbitrary combined cipher state; arbitrary size/opcode or wire bytes; nondeterministic reader/writer",
+      asserts="typed helper / facade / accessor / Read / Write wrapper == raw operation on the wire layout (size BE, opcode LE) with the same post-state; failed read leaves the decrypter unchanged; failing writer reported",
+      bounds="<= 8 I/O calls; unwind 42", assumes=[IO_ASSUME])
+for _h in ["c12_frame", "c12_split_unsplit"]:
+    H("C12", "vanilla_header", _h, timeout=900,
+      encodes=["vanilla_header::HeaderCrypto::{encrypt,decrypt,split,clone}", "EncrypterHalf::{unsplit,is_pair_of}", "DecrypterHalf::is_pair_of"],
+      inputs="arbitrary combined state / arbitrary pair of halves (all pairs of 40-byte keys)",
+      asserts="frame property per direction; split/clone/unsplit identities; unsplit Ok <=> all 40 key bytes equal, halves unchanged",
+      bounds="chunks <= 6 bytes (chunk generality is C07); unwind 42", assumes=[])
